@@ -286,6 +286,28 @@ def bounded(tier, seed):
                         failures.append({"inputs": {"kind": kind, "iface": "wsgi", "path": path, "region": None, "relative": True}, "violated": v})
         finally:
             os.chdir(cwd)
+        # Pages mounted below a prefix (root_path / SCRIPT_NAME): the directory redirect is the SAME URL plus '/'
+        import baize.wsgi as W3
+        import baize.asgi as A3
+        for iface in ("wsgi", "asgi"):
+            for prefix in ("/mnt", "/m n"):
+                evals += 1
+                app = (W3 if iface == "wsgi" else A3).Pages(os.path.join(base, "static"))
+                if iface == "wsgi":
+                    env = wsgi_environ("GET", "/sub")
+                    env["SCRIPT_NAME"] = prefix
+                    rec = run_wsgi(app, env)
+                    loc = dict((k.lower(), v) for k, v in (rec["headers"] or [])).get("location", "")
+                else:
+                    sc = asgi_scope("GET", "/sub")
+                    sc["root_path"] = prefix
+                    rec = run_asgi(app, sc)
+                    loc = dict((k.decode().lower(), v.decode("latin-1")) for k, v in (rec["headers"] or [])).get("location", "")
+                from urllib.parse import quote as _q
+                if not loc.endswith(_q(prefix, safe="/") + "/sub/") and len(failures) < 30:
+                    failures.append({"inputs": {"kind": "Pages", "iface": iface, "path": "/sub", "region": None, "mounted_below": prefix},
+                                     "violated": ["Pages mounted below %r: GET /sub redirects to %r, expected ...%s/sub/ (%r)" % (
+                                         prefix, loc, _q(prefix, safe="/"), rec["exception"])]})
         # ... and the working directory CHANGES between construction and request: the configured directory is the one named at
         # construction time (another tree with the same relative name must not be served instead)
         for kind in ("Files", "Pages"):
